@@ -21,9 +21,11 @@ import (
 // populated by a short random history, every reading RPC (a request type with a read_mask field) is called without
 // a mask twice (a response that differs between the two calls is time- or call-dependent and is left out), then
 // several reads WITH masks of top-level and nested paths are made (unary reads and opened Pull streams), and the
-// unmasked reads are repeated: they must return what they returned before. The masked response itself is compared
-// with the reference projection of the unmasked one; a difference there is counted and reported as a note only
-// (servers assemble some responses from several resources, so this monitor does not judge their projection).
+// unmasked reads are repeated: they must return what they returned before. The masked response itself (unary, and
+// the first messages of a Pull stream next to two unmasked streams of the same request) is compared with the
+// reference projection of the unmasked one: every element must be the projection of the stored element. An element
+// returned whole comes from a server path that never applies the mask (wastepb's list and history replay); that is
+// counted, not judged: the statement is about the resource and the response filters, not about which servers use them.
 func (m *mon) traitServerPhase() {
 	r := m.r
 	table := srvkit.ServerTable()
@@ -226,27 +228,87 @@ func (m *mon) traitServerCase(ent srvkit.ServerEntry, rng *vk.Rand, caseNo int) 
 		if mt.stream != nil {
 			ctx, cancel := context.WithCancel(context.Background())
 			cancels = append(cancels, cancel)
-			var mu sync.Mutex
-			fs := &srvkit.FakeStream{Ctx: ctx, Send: func(pm proto.Message) { mu.Lock(); mu.Unlock() }}
 			unmasked := rng.Chance(1, 3) // a stream without a mask (nil mask: everything) must not touch the store either
-			fill := func(req proto.Message) {
-				proto.Merge(req, vk.GenMessage(rng.Fork(), req, vk.GenOpts{Density: 20, MaxDepth: 1, MaxList: 1}))
-				pool.Apply(rng, req.ProtoReflect(), 0)
-				if unmasked {
-					req.ProtoReflect().Clear(req.ProtoReflect().Descriptor().Fields().ByName("read_mask"))
-				} else {
-					setMask(req)
-				}
-			}
+			// the request is generated once; the masked stream and two unmasked reference streams use the same one
+			var fixed proto.Message
 			h := mt.stream.Handler
-			go func() {
-				vk.Recover(func() { _ = h(mt.s.Impl, &srvkit.LazyStream{FakeStream: fs, Fill: fill}) })
-			}()
+			open := func(masked bool) func() []proto.Message {
+				var mu sync.Mutex
+				var sent []proto.Message
+				fs := &srvkit.FakeStream{Ctx: ctx, Send: func(pm proto.Message) { mu.Lock(); sent = append(sent, proto.Clone(pm)); mu.Unlock() }}
+				fill := func(req proto.Message) {
+					if fixed == nil {
+						proto.Merge(req, vk.GenMessage(rng.Fork(), req, vk.GenOpts{Density: 20, MaxDepth: 1, MaxList: 1}))
+						pool.Apply(rng, req.ProtoReflect(), 0)
+						req.ProtoReflect().Clear(req.ProtoReflect().Descriptor().Fields().ByName("read_mask"))
+						fixed = proto.Clone(req)
+					} else {
+						proto.Reset(req)
+						proto.Merge(req, fixed)
+					}
+					if masked {
+						setMask(req)
+					}
+				}
+				go func() {
+					vk.Recover(func() { _ = h(mt.s.Impl, &srvkit.LazyStream{FakeStream: fs, Fill: fill}) })
+				}()
+				return func() []proto.Message { mu.Lock(); defer mu.Unlock(); return append([]proto.Message{}, sent...) }
+			}
+			got := open(!unmasked)
 			if _, ok := r.MustQuiesce("c06-srv-stream"); !ok {
 				for _, c := range cancels {
 					c()
 				}
 				return
+			}
+			if !unmasked {
+				refA := open(false)
+				r.MustQuiesce("c06-srv-stream-ref")
+				refB := open(false)
+				if _, ok := r.MustQuiesce("c06-srv-stream-ref"); !ok {
+					for _, c := range cancels {
+						c()
+					}
+					return
+				}
+				a, b, g := collectTargets(refA(), target), collectTargets(refB(), target), collectTargets(got(), target)
+				switch {
+				case !sameMultiset(a, b, vk.SameMessage):
+					r.Count("trait-server/call-dependent-stream-skipped", 1)
+				case len(a) == 0 && len(g) == 0:
+					r.Count("trait-server/stream-without-seed", 1)
+				default:
+					want := make([]proto.Message, len(a))
+					for i := range a {
+						want[i] = vk.RefProject(a[i], paths, false)
+					}
+					// every delivered element is the reference projection of a stored element; an element delivered whole
+					// comes from a server path that does not apply the mask at all (wastepb's history replay), which is not
+					// this statement's business and is only counted. Anything else is a projection gone wrong.
+					wholes := 0
+					either := func(x, y proto.Message) bool {
+						if sameProjection(x, vk.RefProject(y, paths, false)) {
+							return true
+						}
+						if vk.SameMessage(x, y) {
+							wholes++
+							return true
+						}
+						return false
+					}
+					switch {
+					case sameMultiset(g, want, sameProjection):
+						r.Count("trait-server/stream-projection-agrees-with-reference", 1)
+					case sameMultiset(g, a, either):
+						r.Count("trait-server/stream-mask-not-honoured(not judged)", 1)
+						r.Count("trait-server/stream-mask-not-honoured/"+ent.Name+"."+mt.name, 1)
+					default:
+						r.Violation(fmt.Sprintf("C06/trait-server/stream-projection/%s.%s", ent.Name, mt.name),
+							fmt.Sprintf("server case %d: %s(%s) with read mask %v starts with %s; the same request without a mask starts with %s, whose projection is %s", caseNo, mt.name, vk.JSON(fixed), paths, renderList(g), renderList(a), renderList(want)),
+							map[string]any{"server": ent.Name, "case": caseNo, "method": mt.name, "paths": paths})
+					}
+				}
 			}
 			r.Count("trait-server/masked-reads", 1)
 			if unmasked {
@@ -285,6 +347,13 @@ func (m *mon) traitServerCase(ent srvkit.ServerEntry, rng *vk.Rand, caseNo int) 
 					if sameProjection(resp, want) {
 						r.Count("trait-server/projection-agrees-with-reference", 1)
 					} else {
+						if !vk.SameMessage(resp, base.resp) {
+							// neither the projection nor the whole value (a server that does not look at the mask at all is not this
+							// monitor's business: the statement is about the resource and response filters)
+							r.Violation(fmt.Sprintf("C06/trait-server/projection/%s.%s", ent.Name, mt.name),
+								fmt.Sprintf("server case %d: %s(%s) with read mask %v returns %s; without the mask it returns %s, whose projection is %s", caseNo, mt.name, vk.JSON(base.req), paths, trunc(vk.JSON(resp)), trunc(vk.JSON(base.resp)), trunc(vk.JSON(want))),
+								map[string]any{"server": ent.Name, "case": caseNo, "method": mt.name, "paths": paths})
+						}
 						r.Count("trait-server/projection-differs-from-reference(not judged)", 1)
 						r.Count("trait-server/projection-differs/"+ent.Name+"."+mt.name, 1)
 						if r.WantSample("srv-proj/" + ent.Name + "." + mt.name) {
@@ -346,4 +415,64 @@ func projectResponse(resp proto.Message, target protoreflect.MessageDescriptor, 
 		return nil
 	}
 	return out
+}
+
+// collectTargets returns every message of type target found in msgs, in order of appearance (depth first).
+func collectTargets(msgs []proto.Message, target protoreflect.MessageDescriptor) []proto.Message {
+	var out []proto.Message
+	var walk func(m protoreflect.Message)
+	walk = func(m protoreflect.Message) {
+		if m.Descriptor().FullName() == target.FullName() {
+			out = append(out, m.Interface())
+			return
+		}
+		m.Range(func(fd protoreflect.FieldDescriptor, v protoreflect.Value) bool {
+			switch {
+			case fd.IsMap():
+				if fd.MapValue().Message() != nil {
+					v.Map().Range(func(_ protoreflect.MapKey, mv protoreflect.Value) bool { walk(mv.Message()); return true })
+				}
+			case fd.IsList():
+				if fd.Message() != nil {
+					for i := 0; i < v.List().Len(); i++ {
+						walk(v.List().Get(i).Message())
+					}
+				}
+			case fd.Message() != nil:
+				walk(v.Message())
+			}
+			return true
+		})
+	}
+	for _, m := range msgs {
+		walk(m.ProtoReflect())
+	}
+	return out
+}
+
+// sameMultiset: a and b hold the same messages (under same) irrespective of order.
+func sameMultiset(a, b []proto.Message, same func(x, y proto.Message) bool) bool {
+	if len(a) != len(b) {
+		return false
+	}
+	used := make([]bool, len(b))
+outer:
+	for _, x := range a {
+		for j, y := range b {
+			if !used[j] && same(x, y) {
+				used[j] = true
+				continue outer
+			}
+		}
+		return false
+	}
+	return true
+}
+
+func renderList(l []proto.Message) string {
+	var ss []string
+	for _, m := range l {
+		ss = append(ss, vk.JSON(m))
+	}
+	return trunc("[" + strings.Join(ss, ", ") + "]")
 }
